@@ -1056,7 +1056,81 @@ def _cond_model_positional():
     Model._fix_points_order = fix
 
 
+def _trn_no_weight():
+    import torch
+    from torchphysics.solver import Solver
+
+    def training_step(self, batch, batch_idx):
+        loss = torch.zeros(1, requires_grad=True, device=self.device)
+        for condition in self.train_conditions:
+            loss = loss + condition(device=self.device, iteration=self.n_training_step)
+        self.n_training_step += 1
+        return loss
+    Solver.training_step = training_step
+
+
+def _trn_iter_const():
+    import torch
+    from torchphysics.solver import Solver
+
+    def training_step(self, batch, batch_idx):
+        loss = torch.zeros(1, requires_grad=True, device=self.device)
+        for condition in self.train_conditions:
+            loss = loss + condition.weight * condition(device=self.device, iteration=batch_idx // 2)
+        self.n_training_step += 1
+        return loss
+    Solver.training_step = training_step
+
+
+def _trn_gradreverse_off():
+    from torchphysics.models.model import AdaptiveWeightLayer
+    AdaptiveWeightLayer.grad_reverse = classmethod(lambda cls, x: x)
+
+
+def _trn_param_unregistered():
+    import torch
+    from torchphysics.solver import Solver
+
+    def configure_optimizers(self):
+        params = [p for n, p in self.named_parameters() if not n.endswith("_params")]
+        opt = self.optimizer_setting.optimizer_class(params, lr=self.optimizer_setting.lr, **self.optimizer_setting.optimizer_args)
+        if self.optimizer_setting.scheduler_class is None:
+            return opt
+        sch = self.optimizer_setting.scheduler_class(opt, **self.optimizer_setting.scheduler_args)
+        return [opt], [{"scheduler": sch, "name": "learning_rate", "interval": "step", "frequency": self.optimizer_setting.scheduler_frequency}]
+    Solver.configure_optimizers = configure_optimizers
+
+
+def _trn_sched_every_step():
+    import torch
+    from torchphysics.solver import Solver
+    old = Solver.configure_optimizers
+
+    def configure_optimizers(self):
+        r = old(self)
+        if isinstance(r, tuple) or isinstance(r, list):
+            r[1][0]["frequency"] = 1
+        return r
+    Solver.configure_optimizers = configure_optimizers
+
+
+def _trn_val_updates_model():
+    import torch
+    from torchphysics.solver import Solver
+    old = Solver.validation_step
+
+    def validation_step(self, batch, batch_idx):
+        old(self, batch, batch_idx)
+        with torch.no_grad():
+            for p in self.parameters():
+                p.mul_(0.5)                       # "regularisation" applied during validation
+    Solver.validation_step = validation_step
+
+
 REGISTRY = {
+    "trn_no_weight": _trn_no_weight, "trn_iteration_halved": _trn_iter_const, "trn_gradreverse_off": _trn_gradreverse_off,
+    "trn_param_unregistered": _trn_param_unregistered, "trn_sched_every_step": _trn_sched_every_step,
+    "trn_val_updates_model": _trn_val_updates_model,
     "cond_inplace_dict": _cond_inplace_dict, "cond_sqerr_mean": _cond_sqerr_mean, "cond_data_rows_reversed": _cond_data_on_first_call_points,
     "cond_periodic_shared_sides": _cond_periodic_shared_sides, "cond_model_positional": _cond_model_positional,
     "fno_pad_front": _fno_pad_front, "fno_inplace_input": _fno_inplace, "fno_position_bias": _fno_position_bias,
@@ -1095,6 +1169,7 @@ REGISTRY = {
     "dl_target_perm": _dl_target_perm, "dl_len_floor": _dl_len_floor, "dl_agg_global_mean": _dl_agg_sum,
 }
 BY_PROPERTY = {
+    "C07": ["trn_no_weight", "trn_iteration_halved", "trn_gradreverse_off", "trn_param_unregistered", "trn_sched_every_step", "trn_val_updates_model"],
     "C04": ["cond_sqerr_mean", "cond_data_rows_reversed", "cond_periodic_shared_sides", "cond_model_positional"],
     "C14": ["cond_inplace_dict", "cond_periodic_shared_sides"],
     "C20": ["fno_pad_front", "fno_inplace_input", "fno_position_bias", "fno_norm_one_side"],
